@@ -51,6 +51,22 @@ pub fn spawn_shards(args: &[String], n: u64, procs: usize) -> (std::path::PathBu
     }
     for (k, mut c) in kids.into_iter().enumerate() {
         let st = c.wait().expect("wait shard");
+        if st.code() == Some(4) {
+            // a panic escaped every guard in the shard; `<k>.crash` holds message and location.
+            // Inside /repo it is the code under test that panicked (a violation the check could
+            // not attribute to an input); anywhere else the harness is broken.
+            let msg = std::fs::read_to_string(dir.join(format!("{}.crash", k))).unwrap_or_default();
+            if msg.contains("/repo/") {
+                println!("violation: panic outside every guard of the harness :: {}", msg);
+                let rp = verif_dir().join("replays").join("unattributed-panic.txt");
+                let _ = std::fs::create_dir_all(rp.parent().unwrap());
+                let _ = std::fs::write(&rp, format!("{}\nshard arguments: {:?}\n", msg, args));
+                println!("VIOLATION property={} replay={}", args.first().cloned().unwrap_or_default(), rp.display());
+                std::process::exit(1);
+            }
+            eprintln!("harness error: shard {} panicked: {}", k, msg);
+            std::process::exit(2);
+        }
         if st.code() == Some(3) {
             // the shard's watchdog fired: a hang, recorded in <k>.hang; the rest of that shard's
             // range is lost, the check reports the hang
